@@ -166,21 +166,27 @@ pub(super) struct TextView<'a, 'input> {
 }
 
 impl<'a> TextView<'a, '_> {
+    /// The text of the element: the concatenation of its text children.
+    ///
+    /// An element without text children (`<ToolTip></ToolTip>`, `<ToolTip/>` or an element
+    /// containing only a comment) has the empty text.
     pub(super) fn view(&self) -> std::borrow::Cow<'a, str> {
-        let first_child = self.inner.first_child().unwrap();
-        if first_child.has_siblings() {
-            let mut s = String::new();
-            for child in self.inner.children() {
-                let child = if child.is_text() {
-                    child.text().unwrap()
-                } else {
-                    continue;
-                };
-                s.push_str(child);
+        let mut texts = self
+            .inner
+            .children()
+            .filter(roxmltree::Node::is_text)
+            .filter_map(|child| child.text());
+        match (texts.next(), texts.next()) {
+            (None, _) => "".into(),
+            (Some(first), None) => first.into(),
+            (Some(first), Some(second)) => {
+                let mut s = String::from(first);
+                s.push_str(second);
+                for text in texts {
+                    s.push_str(text);
+                }
+                s.into()
             }
-            s.into()
-        } else {
-            first_child.text().unwrap().into()
         }
     }
 }
